@@ -104,8 +104,9 @@ class Var:
     at that depth (l1 = outermost).  src: defining statements (may be several lines).  after: statements run after
     the Select call in the same scope (rebind / delete / mutate)."""
 
-    def __init__(self, name, scope, src, after=None, helper=None, byname=False, lam_helper=False):
+    def __init__(self, name, scope, src, after=None, helper=None, byname=False, lam_helper=False, mid=None):
         self.name, self.scope, self.src = name, scope, src
+        self.mid = mid                  # statement run between the first and the second call of a two-call program
         self.after = after if after is not None else "%s = 'REBOUND'" % name
         self.helper = helper            # (params, body_src) of a single-return def: inlinable by construction
         self.byname = byname            # stays a name in the query (non-inlinable callable / module function)
@@ -113,7 +114,11 @@ class Var:
 
 
 class Case:
-    def __init__(self, lam, vars=(), depth=1, tags=(), prelude=(), ns_attr=None, group=""):
+    def __init__(self, lam, vars=(), depth=1, tags=(), prelude=(), ns_attr=None, group="", passed="inline", twice=False):
+        self.passed = passed            # how the callable is handed over: "inline" lambda | "def-local" | "def-global" |
+        #                                 "var-local" | "var-global" (a lambda stored in a variable)
+        self.twice = twice              # the SAME callable object (or, inline, the same text) is passed a second time
+        #                                 after the `mid` statements of the variables ran (depth-1 programs only)
         self.lam = lam                  # source text of the passed lambda
         self.vars: List[Var] = list(vars)
         self.depth = depth              # number of enclosing functions (1..3)
@@ -123,22 +128,32 @@ class Case:
         self.group = group
 
     def key(self):
-        return core.digest({"lam": self.lam, "vars": [(v.name, v.scope, v.src, v.after) for v in self.vars],
-                            "depth": self.depth, "ns": self.ns_attr, "pre": self.prelude})
+        return core.digest({"lam": self.lam, "vars": [(v.name, v.scope, v.src, v.after, v.mid) for v in self.vars],
+                            "depth": self.depth, "ns": self.ns_attr, "pre": self.prelude, "passed": self.passed,
+                            "twice": self.twice})
 
     def describe(self):
         return {"lambda": self.lam, "depth": self.depth, "ns_attr": self.ns_attr, "prelude": self.prelude,
+                "passed": self.passed, "twice": self.twice,
                 "vars": [{"name": v.name, "scope": v.scope, "src": v.src, "after": v.after, "helper": v.helper,
-                          "byname": v.byname, "lam_helper": v.lam_helper} for v in self.vars],
+                          "byname": v.byname, "lam_helper": v.lam_helper, "mid": v.mid} for v in self.vars],
                 "tags": sorted(self.tags), "group": self.group}
 
     @staticmethod
     def from_description(d):
         c = Case(d["lambda"], [Var(v["name"], v["scope"], v["src"], v["after"],
                                    tuple(v["helper"]) if v.get("helper") else None, v.get("byname", False),
-                                   v.get("lam_helper", False)) for v in d["vars"]], d["depth"],
-                 d.get("tags", ()), d.get("prelude", ()), d.get("ns_attr"), d.get("group", ""))
+                                   v.get("lam_helper", False), v.get("mid")) for v in d["vars"]], d["depth"],
+                 d.get("tags", ()), d.get("prelude", ()), d.get("ns_attr"), d.get("group", ""),
+                 d.get("passed", "inline"), d.get("twice", False))
         return c
+
+    def _callable_def(self, name="passed_f"):
+        """Source lines defining the passed callable under `name` (not for inline lambdas)."""
+        lt = ast.parse(self.lam, mode="eval").body
+        if self.passed.startswith("def"):
+            return ["def %s(%s):" % (name, ast.unparse(lt.args)), "    return %s" % ast.unparse(lt.body)]
+        return ["%s = %s" % (name, self.lam)]
 
     def source(self) -> str:
         L = ["# generated by harness/props/capture_common.py", "import math, enum, dataclasses, collections, types",
@@ -149,7 +164,12 @@ class Case:
         for v in self.vars:
             if v.scope == "g":
                 L += v.src.split("\n")
+        if self.passed.endswith("-global"):
+            L += self._callable_def()
         L.append("")
+        snap = "_H.locals_snapshot(dict(%s))" % ", ".join(
+            "%s=%s" % (n, n) for n in sorted({v.name for v in self.vars if v.scope.startswith("l")}))
+        what = self.lam if self.passed == "inline" else "passed_f"
 
         def level(k, ind):
             pad = "    " * ind
@@ -162,9 +182,18 @@ class Case:
                 out += level(k + 1, ind + 1)
                 out.append(pad + "r = f%d()" % (k + 1))
             else:
-                out.append(pad + "_H.locals_snapshot(dict(%s))" % ", ".join(
-                    "%s=%s" % (n, n) for n in sorted({v.name for v in self.vars if v.scope.startswith("l")})))
-                out.append(pad + "r = Select(%s)" % self.lam)
+                if self.passed.endswith("-local"):
+                    out += [pad + s for s in self._callable_def()]
+                out.append(pad + snap)
+                out.append(pad + "r = Select(%s)" % what)
+                if self.twice:
+                    # the history between two calls with the same callable: rebind, then pass it again
+                    for v in self.vars:
+                        if v.mid:
+                            for s in v.mid.split("\n"):
+                                out.append(pad + (s if v.scope != "g" else "exec(%r, globals())" % s))
+                    out.append(pad + snap)
+                    out.append(pad + "r = Select(%s)" % what)
             for v in mine:
                 if v.after:
                     out += [pad + s for s in v.after.split("\n")]
@@ -213,9 +242,6 @@ class Recorder:
         self.f = None
         self.sx_at_call = None
 
-    def locals_snapshot(self, d):
-        self.locals = d
-
     def record(self, f):
         from func_adl.util_ast import check_ast, parse_as_ast
 
@@ -256,10 +282,32 @@ class Recorder:
         return None
 
 
+class Session:
+    """What the generated program talks to: one Recorder per call of Select (a two-call program makes two)."""
+
+    def __init__(self, data, case, mod):
+        self.data, self.case, self.mod = data, case, mod
+        self.locals = {}
+        self.shots: List[Recorder] = []
+
+    def locals_snapshot(self, d):
+        self.locals = d
+
+    def record(self, f):
+        rec = Recorder(self.data, self.case, self.mod)
+        rec.locals = dict(self.locals)
+        # the module globals the generator declared, as they are at this call
+        rec.globals_before = {v.name: getattr(self.mod, v.name) for v in self.case.vars
+                              if v.scope == "g" and hasattr(self.mod, v.name)}
+        rec.call_index = len(self.shots)
+        self.shots.append(rec)
+        return rec.record(f)
+
+
 _counter = itertools.count()
 
 
-def run_case(case: Case, data) -> Tuple[Recorder, Any]:
+def run_case(case: Case, data) -> Tuple[Session, Any]:
     os.makedirs(WORKDIR, exist_ok=True)
     name = "capcase_%d_%d" % (os.getpid(), next(_counter))
     path = os.path.join(WORKDIR, name + ".py")
@@ -268,12 +316,10 @@ def run_case(case: Case, data) -> Tuple[Recorder, Any]:
     spec = importlib.util.spec_from_file_location(name, path)
     mod = importlib.util.module_from_spec(spec)
     sys.modules[name] = mod
-    rec = Recorder(data, case, mod)
+    rec = Session(data, case, mod)
     try:
         spec.loader.exec_module(mod)
         mod._H = rec
-        # the snapshot of module globals the generator declared, taken before the call
-        rec.globals_before = {v.name: getattr(mod, v.name) for v in case.vars if v.scope == "g" and hasattr(mod, v.name)}
         mod.case()
     finally:
         sys.modules.pop(name, None)
@@ -521,13 +567,30 @@ def check_case(ctx, prop: str, case: Case, data, pending: list, extra_oracle=Non
     ctx.count("group", case.group or "-")
     ctx.count("closure_depth", str(case.depth))
     try:
-        rec, mod = run_case(case, data)
+        sess, mod = run_case(case, data)
+        if not sess.shots or (case.twice and len(sess.shots) != 2):
+            raise RuntimeError("Select was called %d times" % len(sess.shots))
     except Exception as ex:  # noqa  (a generated program that does not run is a generator bug, not a verdict)
         ctx.count("impl_result", "generated-program-failed:" + type(ex).__name__)
         ctx.notes.append("generated program failed (%s): %s" % (type(ex).__name__, case.lam)) if len(ctx.notes) < 20 else None
         return
+    ctx.count("passed_as", case.passed + ("/twice" if case.twice else ""))
+    for rec in sess.shots:
+        check_shot(ctx, prop, case, rec, data, pending, extra_oracle)
+
+
+def check_shot(ctx, prop: str, case: Case, rec, data, pending: list, extra_oracle=None):
+    """One call of Select: oracles on the implementation's result, model request queued."""
+    nth = "" if rec.call_index == 0 else " [call #%d with the same callable, after rebinding]" % (rec.call_index + 1)
+    if rec.call_index:
+        ctx.count("second_call", rec.status)
+    if case.passed.startswith("var") and rec.status != "ok":
+        # a lambda first stored in a variable and passed later: source recovery refuses it (C03's business; C03 allows
+        # raising) - nothing of C04/C05 to check on this call
+        ctx.count("impl_result", "stored-lambda-not-recovered(C03):" + rec.status)
+        return
     ctx.count("impl_result", rec.status if rec.status != "ok" else "ok/gate=" + str(rec.gate))
-    w = dict(case.describe(), program=case.source())
+    w = dict(case.describe(), program=case.source(), call=rec.call_index + 1)
     oracle_ok = True
     why = None
     if rec.status == "ok":
@@ -577,7 +640,7 @@ def check_case(ctx, prop: str, case: Case, data, pending: list, extra_oracle=Non
                 _reported_open.add(wkey)
                 print("KNOWN-FINDING: property=%s %s: `%s` -> %s" % (prop, wkey, case.lam, why[:300]))
         else:
-            ctx.fail("failing-input", "%s: `%s` -> %s" % (prop, case.lam, why), w, key=case.key())
+            ctx.fail("failing-input", "%s: `%s`%s -> %s" % (prop, case.lam, nth, why), w, key=case.key())
     mi = rec.mi
     if rec.unreported:
         ctx.count("model", "closure-cell-not-reported-by-inspect(bound-only or CPython quirk)")
@@ -611,7 +674,9 @@ def flush_model(ctx, prop: str, pending: list):
             if oracle_ok:
                 ctx.fail("no-failing-input-found",
                          "correspondence parse_callable (Model/Capture.v) vs parse_as_ast/check_ast broke on `%s`: "
-                         "model %s gate %s ; code %s gate %s" % (case.lam, _short(ans), g, _short(got), got_gate),
+                         "model %s gate %s ; code %s gate %s" % (
+                             case.lam + ("" if not rec.call_index else " [call #2 with the same callable]"),
+                             _short(ans), g, _short(got), got_gate),
                          dict(w, model=ans, impl=got, cenv=mi[0]))
     pending.clear()
 
